@@ -205,6 +205,62 @@ func main() {
 		}
 		return "", false
 	}
+	// lock acquisition order: the semaphores a function receives from, in source order (first occurrence each).
+	// `topOnly` looks at the statements of the function body itself (the main path, not its error branches);
+	// a call of one of the write functions counts as taking the write semaphore.
+	lockOrder := func(key, fn string, topOnly bool) {
+		fd := funcs[fn]
+		if fd == nil {
+			f.Missing = append(f.Missing, key+"("+fn+")")
+			return
+		}
+		var order []string
+		add := func(s string) {
+			for _, o := range order {
+				if o == s {
+					return
+				}
+			}
+			order = append(order, s)
+		}
+		visit := func(n ast.Node) bool {
+			switch x := n.(type) {
+			case *ast.FuncLit:
+				return false // another goroutine or a deferred release
+			case *ast.UnaryExpr:
+				if x.Op == token.ARROW {
+					e := exprString(fset, x.X)
+					for _, sem := range []string{"connSem", "writeSem", "atLeastOnce.seqSem", "exactlyOnce.seqSem", "out.seqSem"} {
+						if strings.HasSuffix(e, "."+sem) || e == sem {
+							add(sem)
+						}
+					}
+				}
+			case *ast.CallExpr:
+				e := exprString(fset, x.Fun)
+				if e == "c.writeBuffersNoWait" || e == "c.writeNoWait" || e == "c.write" || e == "c.writeBuffers" || e == "c.lockWrite" {
+					add("writeSem")
+				}
+			}
+			return true
+		}
+		for _, st := range fd.Body.List {
+			if topOnly {
+				switch st.(type) {
+				case *ast.AssignStmt, *ast.ExprStmt:
+					ast.Inspect(st, visit)
+				}
+			} else {
+				ast.Inspect(st, visit)
+			}
+		}
+		f.Syntax[key] = strings.Join(order, ",")
+	}
+	lockOrder("connect.locks", "Client.connect", true)
+	lockOrder("submitPersisted.locks", "Client.submitPersisted", false)
+	lockOrder("Close.locks", "Client.Close", false)
+	lockOrder("Disconnect.locks", "Client.Disconnect", false)
+
 	// remaining-length guard: if shift > K  (operator and constant)
 	syn("peekPacket.shiftGuard", "Client.peekPacket", func(n ast.Node) (string, bool) {
 		if is, ok := n.(*ast.IfStmt); ok {
@@ -369,6 +425,10 @@ func main() {
 	}
 	sort.Strings(sn)
 	for _, n := range sn {
+		if strings.HasSuffix(n, ".locks") {
+			fmt.Fprintf(&sb, "def %s : List String := %s\n", leanName("syn_"+strings.ReplaceAll(n, ".", "_")), strList(strings.Split(f.Syntax[n], ",")))
+			continue
+		}
 		fmt.Fprintf(&sb, "def %s : String := %q\n", leanName("syn_"+strings.ReplaceAll(n, ".", "_")), f.Syntax[n])
 	}
 	fmt.Fprintf(&sb, "def missing : List String := %s\n", strList(f.Missing))
